@@ -14,11 +14,12 @@
    lookup by identity always and by nickname iff the nickname is unique; guards / authorities =
    the relays carrying the flag; and (c_identity) a relay of the previous document keeps its object.
 
-   It is FALSE of the faithful model on the input classes of the two open findings
-     C16-F1 (an entry with a "p" line and no "w" line)      -> C16_p_without_w_refuted
+   It is FALSE of the faithful model on the input class of the open finding
      C16-F2 (two Authority relays sharing a nickname)        -> C16_dup_authority_nick_refuted
    and is proved for every other history, of any length, as C16_view_equals_document_partial:
-   its extra hypothesis (history_ok) is input_ok plus exactly the complement of those classes. *)
+   its extra hypothesis (history_ok) is input_ok plus exactly the complement of that class.
+   C16-F1 (an entry with a "p" line and no "w" line made the parser raise) is repaired in /repo
+   (c31e0a3); its former refutation witness is kept as C16_p_without_w_now_accepted. *)
 From Coq Require Import List Bool Ascii Arith NArith String.
 From TxVerif Require Import Lib.Bytes Spec.C16 Model.MicrodescTypes Model.Microdesc Model.IdCodec Model.Consensus
   Proofs.C16Parse Proofs.C16State Proofs.C16Proofs.
@@ -29,11 +30,14 @@ Theorem C16_view_equals_document_partial : forall ds, ds <> [] -> history_ok ds 
 Proof. exact oracle_holds_partial. Qed.
 Print Assumptions C16_view_equals_document_partial.
 
-Theorem C16_p_without_w_refuted :
-  exists ds, forallb input_ok ds = true /\ forallb (fun dx => doc_p_without_w (fst dx)) ds = true
-             /\ exists vs, run ds = Some vs /\ oracle (map fst ds) vs = false.
-Proof. exact p_without_w_refuted. Qed.
-Print Assumptions C16_p_without_w_refuted.
+(* regression anchor of the repaired finding C16-F1, on its former witness ("r", "s", "p" without "w") *)
+Theorem C16_p_without_w_now_accepted :
+  forallb input_ok f1_witness = true
+  /\ existsb (fun e => match e_bw e, e_policy e with None, Some _ => true | _, _ => false end)
+             (flat_map fst f1_witness) = true
+  /\ exists vs, run f1_witness = Some vs /\ oracle (map fst f1_witness) vs = true.
+Proof. exact p_without_w_now_accepted. Qed.
+Print Assumptions C16_p_without_w_now_accepted.
 
 Theorem C16_dup_authority_nick_refuted :
   exists ds, forallb input_ok ds = true /\ forallb (fun dx => doc_dup_authority_nick (fst dx)) ds = true
@@ -42,16 +46,16 @@ Proof. exact dup_authority_nick_refuted. Qed.
 Print Assumptions C16_dup_authority_nick_refuted.
 
 (* the line parser (interpreted over the table regenerated from _microdesc_parser.py) reads back
-   every well-formed document without a "p"-without-"w" entry, from each state a previous document
+   every well-formed document (also entries with "p" and no "w"), from each state a previous document
    can leave it in (waiting_r / waiting_w / waiting_p): the relays handed to create_relay while
    the lines are fed are doc_out, and together with the one still pending they are exactly the
    document's entries, in order (C16_parser_emits_all) *)
-Theorem C16_parser_reads_document_partial : forall d q rest,
-  forallb wf_entry d = true -> doc_p_without_w d = false -> good_state q = true ->
+Theorem C16_parser_reads_document : forall d q rest,
+  forallb wf_entry d = true -> good_state q = true ->
   feed {| ps := q; attrs := None |} (render_doc d ++ rest) =
   let '(s2, o2, e2) := feed (doc_end {| ps := q; attrs := None |} d) rest in (s2, doc_out None d ++ o2, e2).
-Proof. exact parser_reads_document_partial. Qed.
-Print Assumptions C16_parser_reads_document_partial.
+Proof. exact parser_reads_document. Qed.
+Print Assumptions C16_parser_reads_document.
 
 Theorem C16_parser_emits_all : forall d s,
   doc_out (attrs s) d ++ emit_pending (attrs (doc_end s d)) = emit_pending (attrs s) ++ map kw_of d.
